@@ -24,5 +24,6 @@ Definition run_case (l : list Z) : list Z :=
   | 50 :: args => run_api_call args
   | 51 :: args => run_api_getters args
   | 60 :: args => run_client args
+  | 61 :: args => run_poll args
   | _ => [-1]
   end.
